@@ -356,7 +356,8 @@ Definition class_invs (w : world) (k : nat) (which : inv_list) : list contract :
   match class_inv w k which with Some r => contracts_of w r | None => [] end.
 
 (** ** Declarations *)
-Record mdecl := { md_name : string; md_kind : mkind; md_async : bool; md_sig : sig; md_decos : list deco }.
+Record mdecl := { md_name : string; md_kind : mkind; md_async : bool; md_sig : sig; md_decos : list deco;
+                  md_inherit : bool }.   (* an accessor added to the property inherited from the first base: @Base.p.setter *)
 Record idecl := { id_contract : contract; id_check_on : check_on; id_enabled : bool; id_invalid : option string }.
 Record cdecl := {
   cd_bases : list nat;
@@ -369,27 +370,52 @@ Inductive defop :=
 | DefClass (c : cdecl).
 
 (** building the namespace: accessors of one property are combined into one property object *)
-Definition ns_add (ns : list (string * member)) (name : string) (k : mkind) (f : nat) : list (string * member) :=
+(** the property an accessor is attached to: the one being built in this class body, or - for
+    [@Base.p.setter] - the one the first base shows under that name.  The decorator expression is
+    evaluated before the contract decorators below it are constructed. *)
+Definition prop_start (w : world) (bases : list nat) (inherit : bool) (ns : list (string * member)) (name : string)
+           (k : mkind) : res (option member) :=
+  match k with
+  | MPlain | MStatic | MClassM => Ok None
+  | _ =>
+    match ns_get ns name with
+    | Some m => Ok (Some m)
+    | None =>
+        if inherit then
+          match bases with
+          | b :: _ => match class_getattr w b name with
+                      | Some (MemProp g s d) => Ok (Some (MemProp g s d))
+                      | _ => Err "AttributeError"
+                      end
+          | [] => Err "NameError"
+          end
+        else Ok None
+    end
+  end.
+
+Definition ns_add (start : option member) (ns : list (string * member)) (name : string) (k : mkind) (f : nat)
+  : list (string * member) :=
   match k with
   | MPlain | MStatic | MClassM => ns_set ns name (MemFunc k f)
-  | MGet => ns_set ns name (match ns_get ns name with
+  | MGet => ns_set ns name (match start with
                             | Some (MemProp _ s d) => MemProp (Some f) s d
                             | _ => MemProp (Some f) None None end)
-  | MSet => ns_set ns name (match ns_get ns name with
+  | MSet => ns_set ns name (match start with
                             | Some (MemProp g _ d) => MemProp g (Some f) d
                             | _ => MemProp None (Some f) None end)
-  | MDel => ns_set ns name (match ns_get ns name with
+  | MDel => ns_set ns name (match start with
                             | Some (MemProp g s _) => MemProp g s (Some f)
                             | _ => MemProp None None (Some f) end)
   end.
 
-Fixpoint define_members (w : world) (ms : list mdecl) (ns : list (string * member))
+Fixpoint define_members (w : world) (bases : list nat) (ms : list mdecl) (ns : list (string * member))
   : res (world * list (string * member)) :=
   match ms with
   | [] => Ok (w, ns)
   | m :: rest =>
+      start <- prop_start w bases (md_inherit m) ns (md_name m) (md_kind m) ;;
       r <- define_function w (md_sig m) (md_async m) (md_decos m) ;;
-      define_members (fst r) rest (ns_add ns (md_name m) (md_kind m) (snd r))
+      define_members (fst r) bases rest (ns_add start ns (md_name m) (md_kind m) (snd r))
   end.
 
 (** *** [_decorate_namespace_function] / [_decorate_namespace_property] for one function *)
@@ -483,7 +509,16 @@ Definition decorate_opt (w : world) (bases : list nat) (dbc_base : bool) (key : 
   : res (world * option nat) :=
   match f with
   | None => Ok (w, None)
-  | Some x => r <- decorate_namespace_fn w bases dbc_base key acc x ;; Ok (fst r, Some (snd r))
+  | Some x =>
+      (* an accessor that is the very function of a base's property (the setter when only the deleter
+         is re-defined with [@Base.p.deleter]) already carries the contracts of the hierarchy: it is
+         left alone, the base uses the same object *)
+      if existsb (fun b => match base_function w b key acc with
+                           | Some (Some y) => Nat.eqb x y
+                           | _ => false
+                           end) bases
+      then Ok (w, Some x)
+      else r <- decorate_namespace_fn w bases dbc_base key acc x ;; Ok (fst r, Some (snd r))
   end.
 
 Fixpoint dbc_decorate_members (w : world) (bases : list nat) (dbc_base : bool) (todo ns : list (string * member))
@@ -676,7 +711,7 @@ Definition is_live (w : world) (k : nat) : bool :=
 Definition define_class (w : world) (d : cdecl) : res world :=
   match inv_construction_error (rev (cd_invs d)) with Some e => Err e | None =>
   if negb (forallb (is_live w) (cd_bases d)) then Err "NameError" else
-  r <- define_members w (cd_members d) [] ;;
+  r <- define_members w (cd_bases d) (cd_members d) [] ;;
   let '(w1, ns) := r in
   let meta := cd_dbc d || existsb (fun b => match get_class w1 b with Some c => co_meta c | None => false end) (cd_bases d) in
   let k := List.length (w_classes w1) in
